@@ -211,15 +211,18 @@ class RefSoftware:
             self.state = R
 
     def tick(self, node_on):
+        """-> True when the model completes a judged restart/install on this tick"""
         if not self.present or self.state != TIMED[self.kind] or self.elapsed is None:
-            return
+            return False
         if not node_on:
             self.free = True
-            return
+            return False
         self.elapsed += 1
         if not self.free and self.elapsed == self.due:
             self.state = R
             self.elapsed = self.due = None
+            return True
+        return False
 
     def power(self, direction):
         """node completed shutdown ('down') or start-up ('up')"""
